@@ -183,6 +183,7 @@ def sweep(chk):
 
 def run(chk):
     quick = chk.tier == "quick"
+    s5.check_rules(chk)
     nzs = sweep(chk)
     cases = s5.enumerate_formspace(chk)
     pool = [c for c in cases if c["rule"] == "vertex" or c["term"] == "tworules" or c["elem"] == "quad"
